@@ -45,10 +45,9 @@ def run(ctx):
         cfg = S.write_cfg(ctx, base, f"c17_{tag}.cfg", **kv)
         consts[tag] = S.constants_of(cfg)
         res = S.run_mc(ctx, cfg, f"mc-{tag}")
-        tasks = list(S.chunks_of(res.out_path, 400, ctx.seed))
-        results, lost = S.pool_map(R.work_c17, tasks)
-        for t in lost:
-            S.merge_cases(viol, {"C17:termination:chunk-timeout": {"kind": "enumerated-chunk", "first_record": t[0][0][:2000], "count": 1}})
+        results, lost = S.pool_map(R.work_c17, S.chunks_of(res.out_path, 400, ctx.seed), stream=True, per_task_timeout=400 * plan["limit_s"] + 120)
+        for _ in lost:
+            S.merge_cases(viol, {"C17:termination:chunk-timeout": {"kind": "enumerated-chunk", "cfg": tag, "count": 1}})
         for r in results:
             for k in total:
                 total[k] += r[k]
